@@ -654,6 +654,9 @@ func init() {
 		})
 		r.Assume("correction caps (RefImpact*Drift and PeerImpact*Drift) below 2^63 ns; structure clause for offsets |v| >= 2^62 only in rounds in which all answers of a side agree — how differing offsets of that size are combined is not stated (C02 stops at 2^62)")
 		r.Assume("virtual time of testing/synctest; prometheus registration replaced by a no-op registerer so that Run can be started many times in one process")
+		if r.Only() == "" || r.Only() == "main:c01wiring" {
+			runMainLeg(r, "c01wiring")
+		}
 		r.Finish("seeded configurations (impact factors {1+1e-9,1.25,2,10,1e6} and peer = ref+1+{1e-6..1e6}, cutoff {0,50us,1s,random}, interval 1ms..1h, timeout {0,I/2,random}, drift of one interval 1 ns..2^61/factor, one scenario in eight with caps between 2^62 and 2^63 ns) x 0..9 reference clocks x 0..9 peers x 3..14 rounds; "+
 			"offsets from a boundary pool (0,+-1,+-cutoff+-1,+-maxCorr+-1,+-2^31,+-(2^62-1),MinInt64,MaxInt64) and uniform; per-source-per-round behaviours ok / error / blocked until cancelled / late by 1 ns / exactly at the deadline / very late, and all-fail rounds after good rounds; "+
 			"every 10th scenario is one of the five inadmissible configuration classes. Oracle on the recorded Do/Sleep/measure events with virtual timestamps: (Do Sleep(interval))* exactly, Do within the timeout of the round start, |corr| <= factor x Drift(interval), "+
